@@ -376,6 +376,7 @@ def run(ctx):
         regex_generated(ctx, forest)
         bracket_units(ctx, forest)
         regex_classes(ctx)
+        regex_intervals(ctx)
         regex_refs(ctx)
         fprintf_keeps_file(ctx, forest)
         panic_inventory(ctx)
@@ -676,6 +677,39 @@ def regex_classes(ctx):
     for p, e, i, m in bad[:3]:
         ctx.violation("check_classes(%r, %s): implementation %s, RegexClasses model %s" % (p, e, i, m),
                       {"property": "C11", "kind": "bracket-check", "pattern": p, "regextype": e, "implementation": i, "model": m, "total_disagreements": len(bad)})
+
+
+def regex_intervals(ctx):
+    """check_intervals (hook) against the RegexIntervals model: every sequence of up to four (five) of the pieces the check tells
+    apart - characters, anchors, groups, alternation, each repetition operator, intervals with good and bad bounds, a bracket
+    expression - written in each syntax, and longer random ones"""
+    import itertools
+    rng = ctx.rng
+    cases = []
+    for ty in ("grep", "posix-basic", "posix-extended", "emacs"):
+        ext = ty == "posix-extended"
+        if ext:
+            toks = ["a", "*", "+", "?", "(", ")", "|", "^", "$", "{1}", "{2,1}", "{1,}", "{40000}", "{", "}", "[a{]", "\\{", "\\`", "1", ","]
+        else:
+            toks = ["a", "*", "\\+", "\\?", "\\(", "\\)", "\\|", "^", "$", "\\{1\\}", "\\{2,1\\}", "\\{1,\\}", "\\{40000\\}", "\\{", "\\}", "[a\\{]", "\n", "\\`", "\\'", "1"]
+        top = 4 if (ctx.thorough or ty in ("grep", "posix-basic")) else 3
+        for n in range(0, top + 1):
+            for tup in itertools.product(toks, repeat=n):
+                cases.append(("".join(tup), ty))
+        for _ in range(20000 if ctx.thorough else 2000):
+            cases.append(("".join(rng.choice(toks + ["\\", "[", "]", "{", "}", "32767", "32768", "\u00e9", "[[.a.]", "[:"]) for _ in range(rng.randint(5, 12))), ty))
+    il = ["rxintervals %s %s" % (e, fw.hexs(p.encode())) for p, e in cases]
+    ml = ["rxintervals %s %s" % (e, ".".join(str(ord(c)) for c in p) if p else "-") for p, e in cases]
+    impl = fw.run_lines(fw.FUV, il)
+    model = fw.run_lines(fw.FUVM, ml)
+    bad = []
+    for (p, e), i, m in zip(cases, impl, model):
+        ctx.count(("intervals", p, e), "{" in p or "*" in p, ["interval-check", "regextype=%s" % e, "ok=%s" % m])
+        if i != m:
+            bad.append((p, e, i, m))
+    for p, e, i, m in bad[:3]:
+        ctx.violation("check_intervals(%r, %s): implementation %s, RegexIntervals model %s" % (p, e, i, m),
+                      {"property": "C11", "kind": "interval-check", "pattern": p, "regextype": e, "implementation": i, "model": m, "total_disagreements": len(bad)})
 
 
 def regex_refs(ctx):
